@@ -105,6 +105,13 @@ func (m *MetricMapper) InitFromYAMLString(fileContents string) error {
 		n.Defaults.MatchType = MatchTypeGlob
 	}
 
+	if err := validateHistogramOptions(&n.Defaults.HistogramOptions); err != nil {
+		return fmt.Errorf("defaults: %v", err)
+	}
+	if err := validateSummaryOptions(&n.Defaults.SummaryOptions); err != nil {
+		return fmt.Errorf("defaults: %v", err)
+	}
+
 	remainingMappingsCount := len(n.Mappings)
 
 	n.FSM = fsm.NewFSM([]string{string(MetricTypeCounter), string(MetricTypeGauge), string(MetricTypeObserver)},
@@ -233,6 +240,13 @@ func (m *MetricMapper) InitFromYAMLString(fileContents string) error {
 			}
 		}
 
+		if err := validateHistogramOptions(currentMapping.HistogramOptions); err != nil {
+			return fmt.Errorf("%v in %s", err, currentMapping.Match)
+		}
+		if err := validateSummaryOptions(currentMapping.SummaryOptions); err != nil {
+			return fmt.Errorf("%v in %s", err, currentMapping.Match)
+		}
+
 		if currentMapping.Ttl == 0 && n.Defaults.Ttl > 0 {
 			currentMapping.Ttl = n.Defaults.Ttl
 		}
@@ -271,6 +285,37 @@ func (m *MetricMapper) InitFromYAMLString(fileContents string) error {
 		m.MappingsCount.Set(float64(len(n.Mappings)))
 	}
 
+	return nil
+}
+
+// validateHistogramOptions rejects bucket lists the client library panics on
+// when the first histogram is created from them.
+func validateHistogramOptions(o *HistogramOptions) error {
+	if o == nil {
+		return nil
+	}
+	for i := 1; i < len(o.Buckets); i++ {
+		if !(o.Buckets[i-1] < o.Buckets[i]) {
+			return fmt.Errorf("histogram buckets must be in increasing order: %v", o.Buckets)
+		}
+	}
+	return nil
+}
+
+// validateSummaryOptions rejects summary options the client library panics on
+// when the first summary is created from them or when it is scraped.
+func validateSummaryOptions(o *SummaryOptions) error {
+	if o == nil {
+		return nil
+	}
+	for _, q := range o.Quantiles {
+		if !(q.Quantile >= 0 && q.Quantile <= 1) {
+			return fmt.Errorf("summary quantile %v is not between 0 and 1", q.Quantile)
+		}
+	}
+	if o.MaxAge < 0 {
+		return fmt.Errorf("summary max_age %v is negative", o.MaxAge)
+	}
 	return nil
 }
 
